@@ -823,6 +823,16 @@ Section Ops3.
           rewrite (polled_poll_call m s i c S Ec Ep) in Hp. exact Hp.
   Qed.
 
+  Lemma idl_guard_close s i j : idl (calls (guard_close s i)) j = idl (calls s) j.
+  Proof.
+    unfold guard_close. destruct (nth_error (calls s) i) as [c|]; [|reflexivity].
+    destruct (c_phase c); try reflexivity; rewrite ?idl_set_phase; try reflexivity.
+    unfold slot_rx_close, slot_tx_drop, set_slot. cbn [calls upd_slots].
+    destruct (rx_closed _); [cbn [calls upd_q]; apply idl_set_phase|].
+    unfold release_permit. destruct (waiters _); [cbn [calls upd_q]; apply idl_set_phase|].
+    rewrite idl_set_phase. cbn [calls upd_q]. apply idl_set_phase.
+  Qed.
+
   Lemma RB_guard_close_st m s i : sim m s -> RB m s -> RB m (guard_close s i).
   Proof.
     intros S B. destruct (guard_close_frames s i) as [Frx Fcn].
@@ -838,7 +848,7 @@ Section Ops3.
   Lemma RB_guard_cancel_st' m s i :
     (forall c, nth_error (calls s) i = Some c -> c_phase c = PClosing -> In i (m_polled m)) ->
     (forall j cj c, j <> i -> In j (m_polled m) -> nth_error (calls s) j = Some cj ->
-                    nth_error (calls s) i = Some c -> c_id cj <> c_id c) ->
+                    nth_error (calls s) i = Some c -> c_phase c = PClosing -> c_id cj <> c_id c) ->
     RB m s -> RB m (guard_cancel s i).
   Proof.
     intros HP HU B. destruct (guard_cancel_effect s i) as [E|(c & Hc & Hph & E)]; [rewrite E; exact B|].
@@ -859,13 +869,12 @@ Section Ops3.
     intros S B. apply RB_guard_cancel_st'; [| |exact B].
     - intros c Hc Hph. pose proof (sc_phase _ _ (sim_c _ _ S) i c Hc) as [Dp _ _ _]. apply mem_nat_In, Dp.
       rewrite Hph. reflexivity.
-    - intros j cj c Hn Hpj Hcj Hc He. apply Hn.
-      destruct (phase_eq_dec (c_phase c) PNew) as [Ep|Ep].
-      + exfalso. pose proof (sc_id _ _ (sim_c _ _ S) j cj Hcj Hpj) as Hid.
-        destruct (id_of_bound m j _ (sc_nowrap _ _ (sim_c _ _ S)) Hid) as [_ Hlt].
-        admit.
-      + admit.
-  Admitted.
+    - intros j cj c Hn Hpj Hcj Hc Hph He. apply Hn.
+      assert (Hpi : In i (m_polled m)).
+      { pose proof (sc_phase _ _ (sim_c _ _ S) i c Hc) as [Dp _ _ _]. apply mem_nat_In, Dp.
+        rewrite Hph. reflexivity. }
+      eapply (sim_ids_unique m s j i cj c); try eassumption. apply (sim_c _ _ S).
+  Qed.
 
   Lemma RB_step m s (o : op) :
     o <> PollDispatch -> o <> DropDispatch -> sim m s -> Inv s -> next_id s + 1 < two64 -> RB m s ->
@@ -905,8 +914,30 @@ Section Ops3.
       assert (R1 : RB m (match option_map c_phase (nth_error (calls s) i) with
                          | Some PClosing => s | _ => guard_cancel (guard_close s i) i end)).
       { assert (K : RB m (guard_cancel (guard_close s i) i)).
-        { apply RB_guard_cancel_st; [|apply RB_guard_close_st; assumption].
-          pose proof (sim_guard_close_op tp fuel_of m s i S) as K. admit. }
+        { apply RB_guard_cancel_st'; [| |apply RB_guard_close_st; assumption].
+          - intros c1 Hc1 Hph1.
+            destruct (nth_error (calls s) i) as [c|] eqn:Ec;
+              [|rewrite guard_close_none in Hc1 by exact Ec; congruence].
+            pose proof (sc_phase _ _ (sim_c _ _ S) i c Ec) as [Dp _ _ _]. apply mem_nat_In, Dp.
+            destruct (phase_eq_dec (c_phase c) PNew) as [Ep|Ep]; [|destruct (c_phase c) eqn:Epp; try reflexivity; try congruence].
+            + exfalso. revert Hc1. unfold guard_close. rewrite Ec, Ep.
+              rewrite (nth_set_phase_self s i PGone c Ec). intros [= <-]. discriminate.
+            + exfalso. revert Hc1. unfold guard_close. rewrite Ec, Epp. intro H. rewrite Ec in H.
+              injection H as <-. congruence.
+          - intros j cj c1 Hn Hpj Hcj Hc1 Hph1 He. apply Hn.
+            destruct (of_calls _ _ _ (OpFr_guard_close s i (sim_w _ _ S)) j cj Hn Hcj) as (cj0 & Hcj0 & Eid & _).
+            destruct (nth_error (calls s) i) as [c|] eqn:Ec;
+              [|rewrite guard_close_none in Hc1 by exact Ec; congruence].
+            assert (Eid1 : c_id c1 = c_id c).
+            { pose proof (idl_guard_close s i i) as K. unfold idl in K. rewrite Hc1, Ec in K. exact K. }
+            assert (Hpi : In i (m_polled m)).
+            { pose proof (sc_phase _ _ (sim_c _ _ S) i c Ec) as [Dp _ _ _]. apply mem_nat_In, Dp.
+              destruct (phase_eq_dec (c_phase c) PNew) as [Ep|Ep]; [|destruct (c_phase c) eqn:Epp; try reflexivity; try congruence].
+              - exfalso. revert Hc1. unfold guard_close. rewrite Ec, Ep.
+                rewrite (nth_set_phase_self s i PGone c Ec). intros [= <-]. discriminate.
+              - exfalso. revert Hc1. unfold guard_close. rewrite Ec, Epp. intro H. rewrite Ec in H.
+                injection H as <-. congruence. }
+            eapply (sim_ids_unique m s j i cj0 c); try eassumption; [apply (sim_c _ _ S)|congruence]. }
         destruct (option_map c_phase (nth_error (calls s) i)) as [[]|]; try exact K. exact B. }
       eapply (proj1 (RBC_same m m' _ _ M1 M2 _ eq_refl eq_refl eq_refl eq_refl)); [exact R1].
       Unshelve. rewrite Mp. apply rec_op_polled. discriminate.
@@ -924,5 +955,80 @@ Section Ops3.
       Unshelve. rewrite Mp. apply rec_op_polled. discriminate.
     - apply Same; try discriminate; try exact B; reflexivity.
     - apply Same; try discriminate; try exact B; reflexivity.
-  Admitted.
+  Qed.
+
+  (* ---------------------------------------------------------------- the outcome a caller receives *)
+  Lemma done_v03 m s i out s' :
+    sim m s -> RC m s -> poll_call s i = (CDone out, s') ->
+    sim (snd (chk_obs maxif (PollCall i) m [OCall (CDone out)])) s' ->
+    v03 (chk_done (rec_op (T:=T) m (PollCall i)) i out) = true.
+  Proof.
+    intros S R H S'. cbn [chk_done v03]. set (m1 := rec_op (T:=T) m (PollCall i)).
+    apply forallb_forall. intros sr Hsr. apply negb_true_iff.
+    unfold sent_for in Hsr. destruct (id_of m1 i) as [id|] eqn:Eid; [|destruct Hsr].
+    apply filter_In in Hsr. destruct Hsr as [Hsr He]. apply N.eqb_eq in He. rewrite He.
+    assert (Hc : forall x, cancelled m1 x = cancelled m x).
+    { intro x. unfold cancelled, m1. rewrite rec_op_cancels. reflexivity. }
+    rewrite Hc.
+    (* the id of call i after the poll *)
+    destruct (poll_call_done _ _ _ _ H) as (_ & Hp & _).
+    unfold phl in Hp. destruct (nth_error (calls s') i) as [c'|] eqn:Ec'; [|discriminate].
+    cbn [option_map] in Hp. injection Hp as Hp.
+    destruct S' as [C' _ _]. cbn [chk_obs snd] in C'.
+    pose proof (sc_phase _ _ C' _ _ Ec') as D. rewrite Hp in D.
+    pose proof (d_polled _ _ _ D true eq_refl) as Hin. apply mem_nat_In in Hin.
+    pose proof (sc_id _ _ C' _ _ Ec' Hin) as Hid.
+    assert (Eid' : id = c_id c').
+    { change (id_of m1 i = Some (c_id c')) in Hid. congruence. }
+    subst id.
+    (* before the poll the call was live or new *)
+    destruct (nth_error (calls s) i) as [c|] eqn:Ec.
+    2:{ revert H. unfold poll_call. rewrite Ec. discriminate. }
+    pose proof (poll_call_id s i c Ec) as Hidl. rewrite H in Hidl. cbn [snd] in Hidl.
+    rewrite (idl_nth _ _ _ Ec') in Hidl.
+    destruct (phase_eq_dec (c_phase c) PNew) as [Ep|Ep].
+    - rewrite Ep in Hidl. rewrite Hidl. eapply fresh_not_cancelled; [exact S|exact R|lia].
+    - assert (Hidc : c_id c' = c_id c) by (rewrite Hidl; destruct (c_phase c); congruence).
+      rewrite Hidc. destruct (livep (c_phase c)) eqn:Elive.
+      + apply (rc_lc _ _ R i c Ec); [eapply livep_polled; eassumption|exact Elive].
+      + exfalso. assert (Hd : poll_call s i = (CNothing, s)).
+        { apply poll_call_dead. intros c0 Hc0. assert (c0 = c) by congruence. subst c0.
+          destruct (c_phase c); try discriminate; try congruence; auto. }
+        rewrite Hd in H. discriminate.
+  Qed.
+
+  (* ---------------------------------------------------------------- the relation and one op *)
+  Record R03 m s : Prop := {
+    r3_10 : R10 m s;
+    r3_c : RC m s;
+    r3_b : running s -> RB m s }.
+
+  Lemma RB_init t0 qcap mif : RB m0 (init (T:=T) t0 qcap mif).
+  Proof.
+    constructor; cbn [inflight calls rx_closed init map]; try reflexivity; try (intros; contradiction).
+    - intros [|j] c H; discriminate.
+    - intros [|j] c H; discriminate.
+  Qed.
+  Lemma RC_init t0 qcap mif : RC m0 (init (T:=T) t0 qcap mif).
+  Proof.
+    constructor; cbn [calls init].
+    - intros id H. discriminate.
+    - intros [|j] c H; discriminate.
+  Qed.
+  Lemma R03_init t0 qcap mif : R03 m0 (init (T:=T) t0 qcap mif).
+  Proof. constructor; [apply R10_init|apply RC_init|intros _; apply RB_init]. Qed.
+
+  Lemma c03_run_loop m s0 f rr sA :
+    run_loop tp f s0 = (rr, sA) -> plog s0 = [] -> sim m s0 -> Inv s0 -> RA m s0 -> RB m s0 -> RC m s0 ->
+    fused s0 = false -> terminal s0 = None -> dropped s0 = false -> finished s0 = None ->
+    DR3 maxif m sA.
+  Proof.
+    intros H Hp S Iv R B C Hf Ht Hd Hfin.
+    assert (D0 : DR3 maxif m s0).
+    { constructor; try assumption; unfold cur; rewrite ?Hp; try assumption; try reflexivity.
+      constructor; try assumption; unfold cur; rewrite ?Hp; try assumption; try reflexivity.
+      - constructor; unfold cur; rewrite Hp; [exact S|reflexivity].
+      - congruence. }
+    exact (DR3_msteps tp maxif m _ _ _ (run_loop_msteps tp _ _ _ _ H) D0).
+  Qed.
 End Ops3.
